@@ -185,6 +185,13 @@ class ModuleTaint:
     def sites(self):
         """(function, line, kind, expression, is_element) for every condition-like use in element-handling functions"""
         out = []
+        # module-wide: filter(any) / map(bool) / filter(all) - a truthiness test handed on as the callback of another operator; it will be
+        # applied to the elements (or to buffers of them: any([0, None]) is False) of the stream, wherever in the module the pipeline is built
+        for n in ast.walk(self.tree):
+            if isinstance(n, ast.Call):
+                for a in list(n.args) + [k.value for k in n.keywords]:
+                    if isinstance(a, ast.Name) and a.id in ("any", "all", "bool") and a.id not in self.defs:
+                        out.append(("<module>", n.lineno, f"the builtin {a.id} handed on as a callback in", n, True))
         for f in self.fns:
             loc = self.local[id(f)]
             touches = bool(loc) or any(isinstance(n, ast.Name) and n.id in self.cells for n in self.own_nodes(f)) or any(
